@@ -10,9 +10,17 @@ for sid in sorted(os.listdir(SEED)):
     caught=[p for p,v in mat.items() if isinstance(v,dict) and v.get('violations')]
     inco=[p for p,v in mat.items() if isinstance(v,dict) and v.get('exit')==2 and not v.get('violations')]
     which=''
-    for p in caught:
-        f=mat[p].get('failed_obligations') or []
-        which='; '.join(x.split(']')[1].strip().split(' ')[0] for x in f[:3] if ']' in x)
+    names=[]
+    for p,v in mat.items():
+        if not isinstance(v,dict): continue
+        for x in (v.get('failed_obligations') or []):
+            if ']' in x:
+                n=x.split(']')[1].strip().split(' ')[0].rstrip(':')
+                if n not in names: names.append(n)
+    conc=lambda n: n.startswith('native::') or n in ('mir::recover-vectors','c07::vectors-vs-bigint-model','c07::translator-validation')
+    sol=[n for n in names if not conc(n)]
+    nat=[n for n in names if conc(n)]
+    which=('solver: '+', '.join(sol[:4]) if sol else 'solver: none (engine refuses the rewritten code or it is outside the encoded functions)')+('; concrete: '+', '.join(nat[:3]) if nat else '')
     note=(m.get('summary') or m.get('needs_to_manifest','')).replace('\n',' ')[:160]
     rows.append('| %s | %s | %s | %s | %s |' % (sid, m['breaks_property'], note, ', '.join(caught) or ('inconclusive only: '+', '.join(inco) if inco else 'NOT caught'), which))
 open(os.path.join(SEED,'README.md'),'w').write('''# Seeded changes
@@ -23,7 +31,7 @@ text and a scratch worktree), `patch.diff`, the agent's demonstration test, its 
 All were confirmed in a scratch worktree: the demonstration passes without the patch, fails
 with it, and the full existing test suite passes with it. None is committed to /repo.
 
-| id | breaks | needs (agent's words, truncated) | registered quick check(s) reporting VIOLATION | failing obligation(s) |
+| id | written against | needs (agent's words, truncated) | registered quick check(s) reporting VIOLATION | obligations that fail (solver = refuted or refused by a solver obligation; concrete = native cross-check) |
 |---|---|---|---|---|
 '''+'\n'.join(rows)+'\n')
 print(len(rows))
